@@ -543,7 +543,7 @@ def decide_verus_leg(pid, leg, tier, seed, log):
             if sorted(x['full'] for x in f2) != base_ids or i2:
                 raise Undecided('unit %s: solver seed %d gives a different result than seed 0 (unstable proof): %s vs %s %s' % (u.label, s2, sorted(x['full'] for x in f2)[:3], base_ids[:3], i2[:2]))
     res['extra_seeds'] = extra_seeds
-    tagset = set(leg.get('tags') or [pid])
+    tagset = set(leg.get('tags') or [pid]) if not leg.get('dep') else set()
     only = leg.get('only_fns')
     hit = lambda tags: bool(tagset & set(ob.tag_props(tags)))
     mine = [o for o in u.table if hit(o['tags']) and o['kind'] != 'requires' and (not only or o['fn'] in only)]
@@ -581,7 +581,7 @@ def decide_verus_leg(pid, leg, tier, seed, log):
                     if callee not in cone:
                         cone.add(callee)
                         work.append(callee)
-    outside = [f for f in other_refuted if f['fn'] in fmeta and f['fn'] not in cone and fmeta[f['fn']].get('readonly')]
+    outside = [] if leg.get('dep') else [f for f in other_refuted if f['fn'] in fmeta and f['fn'] not in cone and fmeta[f['fn']].get('readonly')]
     if outside:
         log('note: unproved obligations in read-only functions this property does not depend on (outside its call cone) are ignored for %s: %s' % (pid, ', '.join(sorted({f['fn'] for f in outside}))))
         other_refuted = [f for f in other_refuted if f not in outside]
@@ -762,7 +762,26 @@ def main():
     # that fails (Kani harness, bounded stand-in) or a refuted obligation of another unit is still a violation; without one the run is undecided (exit 2)
     undecided = []
     undecided_units = []
-    for leg in cfg['legs']:
+    # dependency legs: a unit is verified against the CONTRACTS of its base units (their bodies are external_body there).  The proof of this property is therefore only
+    # established if those base units verify too: every base unit (transitively) that is not already a leg is verified as a dependency - it contributes no obligation of its own,
+    # but an unproved obligation in it makes this property undecided unless a failing input of THIS property is found on the real code.
+    all_legs = list(cfg['legs'])
+    have = {l['unit'] for l in all_legs if l.get('engine') == 'verus' and not l.get('only_fns')}
+    work = [l for l in all_legs if l.get('engine') == 'verus']
+    while work:
+        l = work.pop()
+        try:
+            bases = [b[:-3] if b.endswith('.vc') else b for b in extract.Vc(os.path.join(ROOT, 'contracts', l['vcfile']), dict(l.get('defines') or {})).bases]
+        except Exception:
+            bases = []
+        for b in bases:
+            if b not in have:
+                have.add(b)
+                dep = V(b, canary=False, note='dependency of %s: verified because the units above assume its contracts' % l['unit'])
+                dep['dep'] = True
+                all_legs.append(dep)
+                work.append(dep)
+    for leg in all_legs:
         try:
             if leg['engine'] in ('replay', 'python'):
                 bounded.append(run_bounded(pid, leg, seed))
